@@ -821,6 +821,9 @@ func leanString(x string) string {
 
 // viewSym: the slice value of a view, read from the array as it is now
 func (c *ctx) viewSym(s *state, v *viewInfo, ty types.Type) sym {
+	if v.length < 0 {
+		fail("view of an array whose length is no longer known at translation time (a callee appended to it)")
+	}
 	ap := &ptrv{cell: s.cells[v.arr.cell.id], path: v.arr.path}
 	if ap.cell == nil {
 		fail("view of consumed memory")
@@ -1648,6 +1651,9 @@ func (c *ctx) call(s *state, x *ssa.Call, d int) {
 					fail("append to a view of an array of a list that is not a literal")
 				}
 				v := a0.view
+				if v.length < 0 {
+					fail("append to a view whose length is no longer known at translation time")
+				}
 				n := int64(len(a1.elems))
 				if v.length+n > v.cap {
 					fail("append to a view of an array beyond its capacity")
@@ -2670,18 +2676,28 @@ func (c *ctx) runInstrs(s *state, b *ssa.BasicBlock, start int, onPath map[*ssa.
 		}
 		if call, ok := in.(*ssa.Call); ok && !call.Common().IsInvoke() {
 			if f := call.Common().StaticCallee(); f != nil && len(f.FreeVars) == 0 && f.Blocks != nil {
-				for _, a := range call.Common().Args {
+				handled := false
+				for ai, a := range call.Common().Args {
 					if _, isPtr := a.Type().Underlying().(*types.Pointer); !isPtr {
 						continue
 					}
 					if av, ok := s.env[a]; ok && av.ptr != nil && len(av.ptr.path) == 0 {
 						if cl := s.cells[av.ptr.cell.id]; cl != nil && cl.viewVal != nil {
-							// a callee that works on a view of one of our arrays is expanded in place (its appends are writes
-							// into that array)
+							// a callee that does nothing with the view but append to it is CALLED on the view's content; what it
+							// returns is written into the array (Go.writeWindow: within the capacity an append writes in place)
+							if cl.viewVal.length >= 0 && appendOnly(f, ai, 0) && c.callOnView(s, call, f, ai, cl, d) {
+								handled = true
+								break
+							}
+							// any other callee that works on a view of one of our arrays is expanded in place (its appends are
+							// writes into that array)
 							c.inline(s, call, f, nil, b, idx, onPath, d)
 							return
 						}
 					}
+				}
+				if handled {
+					continue
 				}
 			}
 			if _, isB := call.Common().Value.(*ssa.Builtin); !isB && call.Common().StaticCallee() == nil {
@@ -3563,6 +3579,12 @@ func main() {
 		}
 		var b strings.Builder
 		b.WriteString("import Ivg.Gen.Code.Types\n")
+		for _, fi := range fis {
+			if strings.Contains(fi.body, "Go.writeWindow") {
+				b.WriteString("import Ivg.Gen.GoWindow\n") // appends of a callee to a window of an array (see callOnView)
+				break
+			}
+		}
 		var imps []string
 		for i := range imports {
 			imps = append(imps, i)
@@ -3648,4 +3670,153 @@ func main() {
 			os.Remove(f)
 		}
 	}
+}
+
+// appendOnly: the function does nothing with the slice its pointer parameter #pi points to but append to it:
+// every use of the parameter is a load whose value is only ever the first argument of an append, a store of such an
+// append's result, or handing the pointer on to a function of the same kind.
+func appendOnly(fn *ssa.Function, pi int, depth int) bool {
+	if fn.Blocks == nil || depth > 3 || pi >= len(fn.Params) {
+		return false
+	}
+	p := fn.Params[pi]
+	isAppendOf := func(v ssa.Value) bool {
+		call, ok := v.(*ssa.Call)
+		if !ok {
+			return false
+		}
+		b, ok := call.Common().Value.(*ssa.Builtin)
+		if !ok || b.Name() != "append" {
+			return false
+		}
+		u, ok := call.Common().Args[0].(*ssa.UnOp)
+		return ok && u.Op == token.MUL && u.X == p
+	}
+	for _, r := range *p.Referrers() {
+		switch x := r.(type) {
+		case *ssa.DebugRef:
+		case *ssa.UnOp:
+			if x.Op != token.MUL {
+				return false
+			}
+			for _, rr := range *x.Referrers() {
+				if _, ok := rr.(*ssa.DebugRef); ok {
+					continue
+				}
+				if !isAppendOf(rr.(ssa.Value)) {
+					return false
+				}
+				// the loaded value must be the FIRST argument only
+				if rc := rr.(*ssa.Call); len(rc.Common().Args) > 1 && rc.Common().Args[1] == ssa.Value(x) {
+					return false
+				}
+			}
+		case *ssa.Store:
+			if x.Addr != ssa.Value(p) || !isAppendOf(x.Val) {
+				return false
+			}
+		case *ssa.Call:
+			callee := x.Common().StaticCallee()
+			if callee == nil || x.Common().IsInvoke() {
+				return false
+			}
+			n := 0
+			for ai, a := range x.Common().Args {
+				if a == ssa.Value(p) {
+					n++
+					if !appendOnly(callee, ai, depth+1) {
+						return false
+					}
+				}
+			}
+			if n != 1 {
+				return false
+			}
+		default:
+			return false
+		}
+	}
+	return true
+}
+
+// callOnView: see runInstrs.  Reports false (and has emitted nothing) when the callee's translation does not have the
+// plain shape "the slice in, the slice out".
+func (c *ctx) callOnView(s *state, call *ssa.Call, callee *ssa.Function, pi int, cl *cell, d int) bool {
+	com := call.Common()
+	ci := c.t.translateSpec(callee, nil)
+	if ci.busy || ci.err != "" || len(ci.retConcrete) > 0 || ci.fuel || len(ci.ifaces) > 0 || len(ci.exts) > 0 || ci.needInh {
+		return false
+	}
+	if len(ci.inputs) != 1 || ci.inputs[0].param != pi || ci.inputs[0].field >= 0 ||
+		len(ci.outputs) != 1 || ci.outputs[0].param != pi || ci.outputs[0].field >= 0 {
+		return false
+	}
+	v := cl.viewVal
+	var args []string
+	for i, a := range com.Args {
+		if i == pi {
+			continue
+		}
+		if _, isSig := a.Type().Underlying().(*types.Signature); isSig {
+			return false
+		}
+		av, ok := s.env[a]
+		if !ok {
+			if _, isConst := a.(*ssa.Const); !isConst {
+				return false
+			}
+			av = c.val(s, a)
+		}
+		if av.ptr != nil || av.fn != nil || av.comps != nil || av.boxed || av.iface || av.backed || av.view != nil || !firstOrder(a.Type()) {
+			return false
+		}
+	}
+	pt := com.Args[pi].Type().Underlying().(*types.Pointer)
+	for i, a := range com.Args {
+		if i == pi {
+			if v.length == 0 {
+				args = append(args, "([] : "+c.t.leanType(pt.Elem())+")")
+			} else {
+				args = append(args, c.viewSym(s, v, pt.Elem()).expr)
+			}
+			continue
+		}
+		args = append(args, c.val(s, a).expr)
+	}
+	c.info.calls[callee] = true
+	c.info.callsFi[ci] = true
+	nres := callee.Signature.Results().Len()
+	k := nres + 1
+	name := c.prefix + call.Name()
+	if call.Name() == "" {
+		c.tmp++
+		name = fmt.Sprintf("%su%d", c.prefix, c.tmp)
+	}
+	fmt.Fprintf(&c.out, "%slet %s := (%s %s)\n", ind(d), name, ci.name, strings.Join(args, " "))
+	var comps []sym
+	for j := 0; j < nres; j++ {
+		comps = append(comps, sym{expr: proj(name, j, k), typ: callee.Signature.Results().At(j).Type()})
+	}
+	switch nres {
+	case 0:
+	case 1:
+		s.env[call] = comps[0]
+	default:
+		s.env[call] = sym{comps: comps, typ: call.Type()}
+	}
+	ap := &ptrv{cell: s.cells[v.arr.cell.id], path: v.arr.path}
+	if ap.cell == nil {
+		fail("view of consumed memory")
+	}
+	cur := c.load(ap)
+	c.store(ap, fmt.Sprintf("(Go.writeWindow %s %d %d %s)", cur, v.lo, v.cap, proj(name, nres, k)))
+	key := ""
+	if len(ap.path) > 0 {
+		key = ap.path[0].name
+	}
+	if _, ok := s.frozen[loopLoc{ap.cell.id, key}]; ok {
+		s.frozen[loopLoc{ap.cell.id, key}]++
+	}
+	cl.viewVal = &viewInfo{arr: v.arr, lo: v.lo, length: -1, cap: v.cap, elemTy: v.elemTy}
+	return true
 }
